@@ -1,5 +1,8 @@
 use core::any::TypeId;
+#[cfg(not(unimock_verif))]
 use core::sync::atomic::AtomicUsize;
+#[cfg(unimock_verif)]
+use crate::verif::sync::AtomicUsize;
 
 use crate::alloc::{vec, BTreeMap, Vec};
 use crate::debug;
